@@ -343,6 +343,9 @@ h_script(char *script)
 				ev_feed_signal_event(hctx->loop, SIGCHLD);
 				h_loop_nowait(2);
 			}
+		} else if (!strcmp(cmd, "spawnfail")) {
+			/* spawnfail N: the N-th executor spawn from now fails with EAGAIN */
+			hx_spawn_fail_in = strtol(p, NULL, 10);
 		} else if (!strcmp(cmd, "lives")) {
 			nlives = 0;
 			while (*p && nlives < HX_MAXLIVES) {
